@@ -333,6 +333,56 @@ func (w *vf15World) issueOn(rt *rapid.T, o *vf15Open) {
 	w.cls["issue"] = true
 }
 
+// corruptSession: one bit of a packet on an open session is inverted, more
+// than one maximum packet of valid traffic follows; the application keeps
+// calling Read three times after the first error.  Read must fail and
+// everything delivered must stay a prefix of what the server sent.
+func (w *vf15World) corruptSession(rt *rapid.T) {
+	o := w.pickOpen(rt)
+	l := o.l
+	l.ep.KeepReading(3)
+	region := []refss.Region{refss.RegionMAC, refss.RegionHeader, refss.RegionBody}[rapid.IntRange(0, 2).Draw(rt, "region")]
+	var bit int
+	l.packet(refss.FlagPayload, vf15Fill(w.k, 0x6200+uint64(o.id), 20), 0, nil) // intact, directly in front
+	l.packet(refss.FlagPayload, vf15Fill(w.k, 0x6000+uint64(o.id), 30), 2, func(pkt []byte) []byte {
+		bit = rapid.IntRange(0, refss.RegionBits(pkt, region)-1).Draw(rt, "bit")
+		return refss.CorruptPacket(pkt, region, bit)
+	})
+	l.setCorrupt(region, bit, 32)
+	w.log = append(w.log, fmt.Sprintf("corrupt(#%d,%v bit %d)", o.id, region, bit))
+	if l.corruptDecidable && rapid.Bool().Draw(rt, "nothingAfter") {
+		// intact payload packet and the modified one in one segment, then silence or EOF
+		w.must(rt, l.release(l.n.Pending(wire.B)))
+		w.must(rt, l.checkDelivery("intact payload packet and modified packet in one segment, then silence"))
+		if rapid.Bool().Draw(rt, "thenEOF") {
+			l.n.EOF(wire.B)
+			w.must(rt, l.quiesce())
+			w.must(rt, l.checkDelivery("intact payload packet and modified packet in one segment, then EOF"))
+		}
+		w.cls["session-corrupted-nothing-after"] = true
+	} else {
+		for i := 0; i < 2; i++ {
+			l.packet(refss.FlagPayload, vf15Fill(w.k, 0x6100+uint64(o.id*2+i), 1000), 0, nil)
+		}
+		pend := l.n.Pending(wire.B)
+		w.must(rt, l.release(rapid.IntRange(1, pend).Draw(rt, "corruptCut")))
+		w.must(rt, l.checkDelivery("after a modified packet"))
+		w.must(rt, l.release(pend))
+		w.must(rt, l.checkDelivery("after a modified packet"))
+	}
+	if l.ep.ReadErr() == nil {
+		w.failf(rt, "VIOL[c15-corruption-undetected]: session #%d: a packet with one inverted bit (%v bit %d) was delivered (with 2042 further bytes unless nothing follows), client Read reports no error (delivered %d of %d bytes)", o.id, region, bit, l.ep.GotLen(), len(l.sent))
+	}
+	w.cls["session-corrupted"] = true
+	l.close()
+	for i, x := range w.open {
+		if x == o {
+			w.open = append(w.open[:i], w.open[i+1:]...)
+			break
+		}
+	}
+}
+
 func (w *vf15World) closeSession(rt *rapid.T) {
 	o := w.pickOpen(rt)
 	o.l.close()
@@ -597,7 +647,7 @@ func TestVerifC15Histories(t *testing.T) {
 		t.Fatalf("reference server anchors: %v", err)
 	}
 	c := vf15Evidence()
-	c.Rule("histories: rapid state machine over one state directory and three bridge addresses (two share the host; own secret and ticket authority each): connect (UniformDH response with drawn padding, optionally with a data packet or a NEW_TICKET packet in the same flight, cut in 1..3 segments; or ticket handshake; then a short exchange both ways; whatever has arrived completely must be delivered / stored at quiescence without further traffic), issueTicket (NEW_TICKET on any of up to 4 open sessions, packet optionally split), closeSession, restart (sessions closed, new ClientFactory on the same directory), set the age of a ticket in the live store or in the JSON file absolutely (issuedAt = now - (lifetime + 1 s .. 10 d), or to leave >= 1 h), age(delta): time passes - issuedAt of EVERY entry of the live store and of the file moved back by delta in {1/5/30 s, lifetime - eps, eps, lifetime + eps, 1..8 days}, eps in {10, 20, 150, 600, 3600} s (delta enlarged so that no ticket ends within 8 s below the lifetime), agedAcrossRestart (ticket aged to lifetime - eps or some days, restart, aged to lifetime + eps', connect), wrongSecret, tamperResponse; model: <= 1 ticket per address with its age (sum of all agings since issue, NOT reset by a restart; valid iff age < lifetime, cases in which real time makes that too close to call are discarded), removed and checkpointed before use; oracle per connect: ticket handshake with exactly the stored ticket iff the model holds an unexpired one, otherwise UniformDH; no 112-byte ticket ever appears twice on the wire; non-trivial = a ticket that survived a restart is used, or an expired ticket falls back to UniformDH; fingerprint = seed and action log")
+	c.Rule("histories: rapid state machine over one state directory and three bridge addresses (two share the host; own secret and ticket authority each): connect (UniformDH response with drawn padding, optionally with a data packet or a NEW_TICKET packet in the same flight, cut in 1..3 segments; or ticket handshake; then a short exchange both ways; whatever has arrived completely must be delivered / stored at quiescence without further traffic), issueTicket (NEW_TICKET on any of up to 4 open sessions, packet optionally split), closeSession, corruptSession (one inverted bit in a packet of an open session + 2042 valid bytes, the reader keeps calling Read three times after the first error: Read must fail, everything delivered stays a prefix), restart (sessions closed, new ClientFactory on the same directory), set the age of a ticket in the live store or in the JSON file absolutely (issuedAt = now - (lifetime + 1 s .. 10 d), or to leave >= 1 h), age(delta): time passes - issuedAt of EVERY entry of the live store and of the file moved back by delta in {1/5/30 s, lifetime - eps, eps, lifetime + eps, 1..8 days}, eps in {10, 20, 150, 600, 3600} s (delta enlarged so that no ticket ends within 8 s below the lifetime), agedAcrossRestart (ticket aged to lifetime - eps or some days, restart, aged to lifetime + eps', connect), wrongSecret, tamperResponse; model: <= 1 ticket per address with its age (sum of all agings since issue, NOT reset by a restart; valid iff age < lifetime, cases in which real time makes that too close to call are discarded), removed and checkpointed before use; oracle per connect: ticket handshake with exactly the stored ticket iff the model holds an unexpired one, otherwise UniformDH; no 112-byte ticket ever appears twice on the wire; non-trivial = a ticket that survived a restart is used, or an expired ticket falls back to UniformDH; fingerprint = seed and action log")
 	c.Floor("ticket-after-restart/histories", 0.30)
 	c.Floor("expired-falls-back/histories", 0.20)
 	c.Floor("ticket-handshake/histories", 0.50)
@@ -637,6 +687,7 @@ func TestVerifC15Histories(t *testing.T) {
 			"issueTicket2":      w.issueTicket,
 			"issueTicket3":      w.issueTicket,
 			"closeSession":      w.closeSession,
+			"corruptSession":    w.corruptSession,
 			"restart":           w.restart,
 			"restart2":          w.restart,
 			"expireLive":        w.expireLive,
